@@ -1,10 +1,11 @@
 #!/bin/bash
-# tools/seedmut.sh <PROP> : evaluate the mutants a sub-agent left in /tmp/mut/<PROP>/mutants/*
-# against the property's quick check and record them under /verif/seeded/<PROP>-m<k>/.
-P="$1"; shift
-for d in /tmp/mut/$P/mutants/*/; do
+# tools/seedmut.sh <PROP> [<srcbase>=/tmp/mut] [<tag>=m] [evalmut args...]
+# Evaluate the mutants a sub-agent left in <srcbase>/<PROP>/mutants/* against the property's
+# quick check and record them under /verif/seeded/<PROP>-<tag><k>/.
+P="$1"; SRC="${2:-/tmp/mut}"; TAG="${3:-m}"; shift; shift; shift
+for d in $SRC/$P/mutants/*/; do
   k=$(basename "$d")
-  id="$P-m$k"
+  id="$P-$TAG$k"
   mkdir -p /verif/seeded/$id
   cp "$d/patch.diff" "$d/demo_test.go" /verif/seeded/$id/ 2>/dev/null
   cp "$d/README.md" /verif/seeded/$id/README.md 2>/dev/null
